@@ -51,7 +51,7 @@ ASSUMPTIONS = [
     "thread pool is not used (uncontrolled interleaving does not replay)",
 ]
 
-REFUSALS = ["other_ndim", "incompatible_bins", "int", "str", "none", "list", "ndarray", "shifted_grid"]
+REFUSALS = ["other_ndim", "incompatible_bins", "shifted_by_one_bin", "int", "str", "none", "list", "ndarray", "shifted_grid"]
 
 
 # ----------------------------------------------------------------------------
@@ -63,14 +63,23 @@ def generate(rng, seed, part):
     ndim = rng.choice([1, 1, 1, 2, 2, 3])
     mode = rng.choice(["fixed", "fixed", "adaptive"])
     wkind = rng.choice(build.WEIGHT_KINDS)
+    far = rng.random() < 0.12  # narrow bins far from the origin: edge differences << |edge|
     if mode == "fixed":
         axes = [build.gen_axis(rng, max_bins=6 if ndim == 1 else (4 if ndim == 2 else 3)) for _ in range(ndim)]
+        if far:
+            for k in range(ndim):
+                wf = rng.choice([1e-3, 0.01, 0.25])
+                axes[k] = {"kind": "fixed", "width": wf, "count": rng.randint(2, 5),
+                           "times_min": int(rng.choice([1e3, 5e4, -2e3]) / wf), "ire": rng.random() < 0.4}
     else:
         axes = []
         for _ in range(ndim):
             w = rng.choice([1.0, 2.0, 0.5, 0.25, 0.1, 0.3, 2.5])
             axes.append({"kind": "fixed", "width": w, "count": 0, "adaptive": True,
                          "shift": rng.choice([None, None, 0.5, w / 2])})
+            if far:
+                axes[-1]["width"] = rng.choice([1e-3, 0.01, 0.25])
+                axes[-1]["offset"] = rng.choice([1e3, 5e4, -2e3])
     n = rng.choice([0, 2, 3, 5, 8, 12, 20, 30])
     entries = []
     if mode == "fixed":
@@ -83,7 +92,7 @@ def generate(rng, seed, part):
         for _ in range(n):
             vals = []
             for a in axes:
-                k = rng.randint(-span, span)
+                k = rng.randint(-span, span) + int(a.get("offset", 0.0) / a["width"])
                 x = (k + rng.choice([0.0, 0.0, 0.5, rng.random()])) * a["width"] + (a["shift"] or 0.0)
                 if rng.random() < 0.15:
                     x = build.near(x, rng.choice([-1, 1]))
@@ -449,7 +458,7 @@ def execute(plan, ctx, rules=("C05",)):
                 continue
             if not ok:
                 if c05:
-                    ctx.violation("C05/valid-add-accepted", f"C05/add-raised/{kind}/{exc_tag(res)}",
+                    ctx.violation("C05/valid-add-accepted", f"C05/add-raised/{kind}/{exc_tag(res)}{noise_tag(res, [a.h, b.h])}",
                                   f"{o} of two histograms over compatible bins raised {res!r}; "
                                   f"bins a={a.h.bins!r} b={b.h.bins!r}"[:1500])
                 return
@@ -500,7 +509,8 @@ def execute(plan, ctx, rules=("C05",)):
                     ctx.fault("refusal_probe")
                     continue
                 if c05:
-                    ctx.violation("C05/valid-add-accepted", f"C05/add-raised/{kind}/{exc_tag(res)}",
+                    ctx.violation("C05/valid-add-accepted",
+                                  f"C05/add-raised/{kind}/{exc_tag(res)}{noise_tag(res, [x.h for x in items])}",
                                   f"{o} over {len(items)} compatible histograms raised {res!r}")
                 return
             n_reduce += 1
@@ -580,6 +590,14 @@ def execute(plan, ctx, rules=("C05",)):
         ctx.nontrivial += 1
 
 
+def noise_tag(exc, hists):
+    """Distinguishes the known rounding-noise refusal from a refusal caused by really missed weight."""
+    if "missed values" not in str(exc):
+        return ""
+    worst = max((abs(float(h.missed)) / (abs(float(h.total)) + 1e-300) for h in hists), default=0.0)
+    return "/missed-is-rounding-noise" if worst < 1e-9 else "/missed-is-real"
+
+
 def bins_equal(x, y):
     return x.ndim == y.ndim and all(np.array_equal(np.asarray(p.bins), np.asarray(q.bins))
                                     for p, q in zip(x.binnings, y.binnings))
@@ -605,16 +623,16 @@ def refusal_operand(kind, h, cfg):
         if h.ndim == 1:
             return HistogramND([StaticBinning(np.asarray(h.bins)), StaticBinning([0.0, 1.0])]), "other-ndim"
         return Histogram1D(StaticBinning(np.asarray(h.bins[0]))), "other-ndim"
-    if kind == "incompatible_bins":
+    if kind in ("incompatible_bins", "shifted_by_one_bin"):
         if cfg["mode"] != "fixed":
             return NotImplemented, ""
         bs = []
         for b in h.binnings:
             arr = np.asarray(b.bins, dtype=float).copy()
-            arr = arr + 0.37 * float(arr[0, 1] - arr[0, 0])
+            arr = arr + (0.37 if kind == "incompatible_bins" else 1.0) * float(arr[0, 1] - arr[0, 0])
             bs.append(StaticBinning(arr))
         other = Histogram1D(bs[0]) if h.ndim == 1 else type(h)(bs) if type(h).__name__ != "HistogramND" else HistogramND(bs)
-        return other, "incompatible-bins"
+        return other, "incompatible-bins" if kind == "incompatible_bins" else "shifted-by-one-bin"
     if kind == "shifted_grid":
         if cfg["mode"] != "adaptive" or any(b.bin_count == 0 for b in h.binnings):
             return NotImplemented, ""
